@@ -152,3 +152,867 @@ Proof.
   intros c m. unfold kind_is. generalize (cmd_kind c) as k. intros k H.
   pose proof (classify_spec k) as Hk. rewrite H in Hk. destruct m; subst k; reflexivity.
 Qed.
+
+(* ---- function entries are touched by set_kwargs only -------------------------------- *)
+
+(* every function/macro entry of st is still there, unchanged, in st' *)
+Definition keeps (st st' : agg) : Prop :=
+  forall j m n d p k, fn_at st j m n d p k -> fn_at st' j m n d p k.
+
+Lemma keeps_refl : forall st, keeps st st.
+Proof. intros st j m n d p k H. exact H. Qed.
+
+Lemma keeps_trans : forall a b c, keeps a b -> keeps b c -> keeps a c.
+Proof. intros a b c H1 H2 j m n d p k H. apply H2, H1, H. Qed.
+
+Lemma keeps_same : forall st st', documented st' = documented st -> keeps st st'.
+Proof. intros st st' E j m n d p k H. unfold fn_at in *. rewrite E. exact H. Qed.
+
+Lemma keeps_append : forall e docd st, keeps st (append e docd st).
+Proof.
+  intros e docd st j m n d p k H. unfold fn_at in *. cbn [append documented].
+  rewrite nth_error_app1; [exact H|]. apply nth_error_Some. rewrite H. discriminate.
+Qed.
+
+Lemma keeps_update : forall i f st,
+  (forall m n d p k, f (EFunction m n d p k) = EFunction m n d p k) ->
+  keeps st (with_docs (update_nth i f) st).
+Proof.
+  intros i f st Hf j m n d p k H. unfold fn_at in *. cbn [with_docs documented].
+  apply nth_error_update_nth_fix; [exact H|apply Hf].
+Qed.
+
+Lemma keeps_upd_awaiting : forall a mac extra st,
+  keeps st (with_docs (upd_awaiting_entry a mac extra) st).
+Proof.
+  intros a mac extra st. destruct a as [|idx|cidx ctor]; cbn [upd_awaiting_entry].
+  - apply keeps_same. reflexivity.
+  - apply keeps_update. reflexivity.
+  - apply keeps_update. reflexivity.
+Qed.
+
+Lemma process_cpa_fn : forall st j m n d p k,
+  fn_at st j m n d p k ->
+  fn_at (process_cpa st) j m n d p (k || frame_is j (def_stack st)).
+Proof.
+  intros st j m n d p k H. unfold process_cpa, frame_is.
+  destruct (def_stack st) as [|[i|] r]; try (rewrite orb_false_r; exact H).
+  unfold fn_at in *. cbn [with_docs documented]. rewrite nth_error_update_nth.
+  destruct (Nat.eqb i j); [|rewrite orb_false_r; exact H].
+  rewrite H. cbn [option_map set_kwargs]. rewrite orb_true_r. reflexivity.
+Qed.
+
+Lemma process_cpa_def_stack : forall st, def_stack (process_cpa st) = def_stack st.
+Proof.
+  intro st. unfold process_cpa. destruct (def_stack st) as [|[i|] r] eqn:E; exact E.
+Qed.
+
+Lemma process_cpa_length : forall st, length (documented (process_cpa st)) = length (documented st).
+Proof.
+  intro st. unfold process_cpa. destruct (def_stack st) as [|[i|] r]; try reflexivity.
+  cbn [with_docs documented]. apply update_nth_length.
+Qed.
+
+Section Steps.
+  Variable fl : flags.
+  Variable trigger : str.
+  Variables strip_fn strip_mac strip_mem : str -> str.
+
+  Lemma handle_keeps : forall k c doc docd st st',
+    k <> CkCpa -> handle trigger strip_fn strip_mac k c doc docd st = Ok st' -> keeps st st'.
+  Proof.
+    intros k c doc docd st st' Hk H.
+    destruct k as [m| | | | |sec| |ctor| | | |]; cbn [handle] in H; try contradiction.
+    - unfold process_def in H. destruct (singles c) as [|name ps]; [discriminate|].
+      injection H as <-. eapply keeps_trans; [apply keeps_append|apply keeps_same; reflexivity].
+    - injection H as <-. apply keeps_refl.
+    - injection H as <-. unfold process_class. destruct (singles c) as [|name supers]; [apply keeps_refl|].
+      eapply keeps_trans; [|apply keeps_same; reflexivity].
+      destruct (class_stack st) as [|[cidx|] r]; try apply keeps_append.
+      eapply keeps_trans; [apply keeps_append|apply keeps_update; reflexivity].
+    - injection H as <-. apply keeps_refl.
+    - injection H as <-. unfold process_test.
+      destruct (Nat.ltb _ _); [apply keeps_refl|].
+      destruct (scan_name _ _); [|apply keeps_refl].
+      eapply keeps_trans; [apply keeps_append|apply keeps_same; reflexivity].
+    - unfold process_set in H. destruct (singles c) as [|name [|v [|v2 vals]]].
+      + injection H as <-. apply keeps_refl.
+      + injection H as <-. apply keeps_append.
+      + destruct (unquote v); [|discriminate]. injection H as <-. apply keeps_append.
+      + injection H as <-. apply keeps_append.
+    - injection H as <-. unfold process_member.
+      destruct (Nat.ltb _ _); [apply keeps_refl|].
+      destruct (class_stack st) as [|[cidx|] r]; try apply keeps_refl.
+      eapply keeps_trans; [|apply keeps_same; reflexivity].
+      apply keeps_update. intros. destruct ctor; reflexivity.
+    - injection H as <-. unfold process_attr.
+      destruct (Nat.ltb _ _); [apply keeps_refl|].
+      destruct (class_stack st) as [|[cidx|] r]; try apply keeps_refl.
+      apply keeps_update. reflexivity.
+    - injection H as <-. unfold process_add_test.
+      destruct (Nat.ltb _ _); [apply keeps_refl|].
+      destruct (scan_name_idx _ _ _) as [[idx name]|]; [|apply keeps_refl].
+      apply keeps_append.
+    - injection H as <-. unfold process_option.
+      destruct (singles c) as [|n [|h [|v [|x r]]]]; try apply keeps_refl; apply keeps_append.
+    - injection H as <-. apply keeps_refl.
+  Qed.
+
+  (* what the process_* method of a kind does to the definition stack *)
+  Lemma handle_def_stack : forall k c doc docd st st',
+    handle trigger strip_fn strip_mac k c doc docd st = Ok st' ->
+    def_stack st' = match k with
+                    | CkDef _ => Some (length (documented st)) :: def_stack st
+                    | _ => def_stack st
+                    end.
+  Proof.
+    intros k c doc docd st st' H.
+    destruct k as [m| | | | |sec| |ctor| | | |]; cbn [handle] in H.
+    - unfold process_def in H. destruct (singles c) as [|name ps]; [discriminate|].
+      injection H as <-. reflexivity.
+    - injection H as <-. reflexivity.
+    - injection H as <-. unfold process_class. destruct (singles c) as [|name supers]; [reflexivity|].
+      destruct (class_stack st) as [|[cidx|] r]; reflexivity.
+    - injection H as <-. reflexivity.
+    - injection H as <-. apply process_cpa_def_stack.
+    - injection H as <-. unfold process_test.
+      destruct (Nat.ltb _ _); [reflexivity|]. destruct (scan_name _ _); reflexivity.
+    - unfold process_set in H. destruct (singles c) as [|name [|v [|v2 vals]]].
+      + injection H as <-. reflexivity.
+      + injection H as <-. reflexivity.
+      + destruct (unquote v); [|discriminate]. injection H as <-. reflexivity.
+      + injection H as <-. reflexivity.
+    - injection H as <-. unfold process_member.
+      destruct (Nat.ltb _ _); [reflexivity|].
+      destruct (class_stack st) as [|[cidx|] r]; reflexivity.
+    - injection H as <-. unfold process_attr.
+      destruct (Nat.ltb _ _); [reflexivity|].
+      destruct (class_stack st) as [|[cidx|] r]; reflexivity.
+    - injection H as <-. unfold process_add_test.
+      destruct (Nat.ltb _ _); [reflexivity|].
+      destruct (scan_name_idx _ _ _) as [[idx name]|]; reflexivity.
+    - injection H as <-. unfold process_option.
+      destruct (singles c) as [|n [|h [|v [|x r]]]]; reflexivity.
+    - injection H as <-. reflexivity.
+  Qed.
+
+  Lemma enter_documented_k_keeps : forall k command d c st st',
+    k <> CkCpa ->
+    enter_documented_k trigger strip_fn strip_mac k command d c st = Ok st' -> keeps st st'.
+  Proof.
+    intros k command d c st st' Hk H.
+    destruct k as [m| | | | |sec| |ctor| | | |]; cbn [enter_documented_k] in H;
+      try (eapply handle_keeps; [exact Hk|exact H]).
+    all: injection H as <-; apply keeps_append.
+  Qed.
+
+  Lemma enter_documented_k_def_stack : forall k command d c st st',
+    enter_documented_k trigger strip_fn strip_mac k command d c st = Ok st' ->
+    def_stack st' = match k with
+                    | CkDef _ => Some (length (documented st)) :: def_stack st
+                    | _ => def_stack st
+                    end.
+  Proof.
+    intros k command d c st st' H.
+    destruct k as [m| | | | |sec| |ctor| | | |]; cbn [enter_documented_k] in H;
+      try (apply handle_def_stack in H; exact H).
+    all: injection H as <-; reflexivity.
+  Qed.
+
+  Lemma claim_keeps : forall m consumed c st, keeps st (claim strip_mem m consumed c st).
+  Proof.
+    intros m consumed c st. unfold claim.
+    set (extra := if Nat.ltb 2 _ then _ else _).
+    destruct consumed; (eapply keeps_trans; [apply keeps_upd_awaiting|apply keeps_same; reflexivity]).
+  Qed.
+
+  Lemma enter_command_k_keeps : forall k consumed c st st',
+    k <> CkCpa ->
+    enter_command_k fl trigger strip_fn strip_mac strip_mem k consumed c st = Ok st' ->
+    keeps st st'.
+  Proof.
+    intros k consumed c st st' Hk H.
+    destruct k as [m| | | | |sec| |ctor| | | |]; cbn [enter_command_k] in H; try contradiction.
+    - destruct (aw_pending (awaiting st)); [injection H as <-; apply claim_keeps|].
+      destruct consumed; [injection H as <-; apply keeps_refl|].
+      destruct (flag_of fl (CkDef m)).
+      + apply (handle_keeps (CkDef m)) in H; [exact H|discriminate].
+      + injection H as <-. apply keeps_same. reflexivity.
+    - destruct (def_stack st); [discriminate|]. injection H as <-. apply keeps_same. reflexivity.
+    - destruct (negb (inc_cpp_class fl)); [injection H as <-; apply keeps_same; reflexivity|].
+      destruct consumed; [injection H as <-; apply keeps_refl|].
+      apply (handle_keeps CkClass c [] false); [discriminate|exact H].
+    - destruct (class_stack st); [discriminate|]. injection H as <-. apply keeps_same. reflexivity.
+    - destruct consumed; [injection H as <-; apply keeps_refl|].
+      destruct (flag_of fl (CkTest sec)); [eapply handle_keeps; [|exact H]; discriminate|].
+      injection H as <-. apply keeps_refl.
+    - injection H as <-. apply keeps_refl.
+    - destruct consumed; [injection H as <-; apply keeps_refl|].
+      destruct (flag_of fl (CkMember ctor)); [eapply handle_keeps; [|exact H]; discriminate|].
+      injection H as <-. apply keeps_refl.
+    - destruct consumed; [injection H as <-; apply keeps_refl|].
+      destruct (flag_of fl CkAttr); [eapply handle_keeps; [|exact H]; discriminate|].
+      injection H as <-. apply keeps_refl.
+    - destruct consumed; [injection H as <-; apply keeps_refl|].
+      destruct (flag_of fl CkAddTest); [eapply handle_keeps; [|exact H]; discriminate|].
+      injection H as <-. apply keeps_refl.
+    - destruct consumed; [injection H as <-; apply keeps_refl|].
+      destruct (flag_of fl CkOption); [eapply handle_keeps; [|exact H]; discriminate|].
+      injection H as <-. apply keeps_refl.
+    - injection H as <-. apply keeps_refl.
+  Qed.
+
+  (* the frame pushed by the enterCommand part of a definition header *)
+  Definition def_frame (consumed : bool) (m : bool) (st : agg) : list (option nat) :=
+    if consumed then []
+    else if aw_pending (awaiting st) then [None]
+    else if flag_of fl (CkDef m) then [Some (length (documented st))] else [None].
+
+  Lemma enter_command_k_def_stack : forall k consumed c st st',
+    enter_command_k fl trigger strip_fn strip_mac strip_mem k consumed c st = Ok st' ->
+    match k with
+    | CkDef m => def_stack st' = def_frame consumed m st ++ def_stack st
+    | CkEndDef => exists fr, def_stack st = fr :: def_stack st'
+    | _ => def_stack st' = def_stack st
+    end.
+  Proof.
+    intros k consumed c st st' H.
+    destruct k as [m| | | | |sec| |ctor| | | |]; cbn [enter_command_k] in H.
+    - unfold def_frame. destruct (aw_pending (awaiting st)).
+      { injection H as <-. unfold claim. destruct consumed; reflexivity. }
+      destruct consumed; [injection H as <-; reflexivity|].
+      destruct (flag_of fl (CkDef m)).
+      + apply (handle_def_stack (CkDef m)) in H. exact H.
+      + injection H as <-. reflexivity.
+    - destruct (def_stack st) as [|fr ds]; [discriminate|]. injection H as <-. exists fr. reflexivity.
+    - destruct (negb (inc_cpp_class fl)); [injection H as <-; reflexivity|].
+      destruct consumed; [injection H as <-; reflexivity|].
+      apply (handle_def_stack CkClass) in H. exact H.
+    - destruct (class_stack st); [discriminate|]. injection H as <-. reflexivity.
+    - injection H as <-. apply process_cpa_def_stack.
+    - destruct consumed; [injection H as <-; reflexivity|].
+      destruct (flag_of fl (CkTest sec)); [apply handle_def_stack in H; exact H|].
+      injection H as <-. reflexivity.
+    - injection H as <-. reflexivity.
+    - destruct consumed; [injection H as <-; reflexivity|].
+      destruct (flag_of fl (CkMember ctor)); [apply handle_def_stack in H; exact H|].
+      injection H as <-. reflexivity.
+    - destruct consumed; [injection H as <-; reflexivity|].
+      destruct (flag_of fl CkAttr); [apply handle_def_stack in H; exact H|].
+      injection H as <-. reflexivity.
+    - destruct consumed; [injection H as <-; reflexivity|].
+      destruct (flag_of fl CkAddTest); [apply handle_def_stack in H; exact H|].
+      injection H as <-. reflexivity.
+    - destruct consumed; [injection H as <-; reflexivity|].
+      destruct (flag_of fl CkOption); [apply handle_def_stack in H; exact H|].
+      injection H as <-. reflexivity.
+    - injection H as <-. reflexivity.
+  Qed.
+
+  Notation step := (agg_step fl trigger strip_fn strip_mac strip_mem).
+  Notation run := (agg_run fl trigger strip_fn strip_mac strip_mem).
+
+  Lemma process_def_length : forall m c doc docd st st',
+    process_def trigger strip_fn strip_mac m c doc docd st = Ok st' ->
+    length (documented st') = S (length (documented st)).
+  Proof.
+    intros m c doc docd st st' H. unfold process_def in H.
+    destruct (singles c) as [|name ps]; [discriminate|]. injection H as <-.
+    cbn [with_def_stack append documented]. rewrite app_length. cbn [length]. lia.
+  Qed.
+
+  Lemma ev_length : forall n st st', ev n st st' -> length (documented st) <= length (documented st').
+  Proof.
+    intros n st st' (o & nw & E & F & _). rewrite E, app_length. apply Forall2_len in F. lia.
+  Qed.
+
+  (* one element, definition stack *)
+  Lemma agg_step_def_stack : forall st e st',
+    step st e = Ok st' ->
+    match elem_kind e with
+    | CkDef _ => exists fr, def_stack st' = fr :: def_stack st
+                            /\ (fr = None
+                                \/ (fr = Some (length (documented st))
+                                    /\ length (documented st) < length (documented st')))
+    | CkEndDef => exists fr, def_stack st = fr :: def_stack st'
+    | _ => def_stack st' = def_stack st
+    end.
+  Proof.
+    intros st e st' H. destruct e as [d c|c|d]; cbn [agg_step elem_kind] in *.
+    - rewrite enter_documented_eq in H. fold (cmd_kind c) in H.
+      destruct (enter_documented_k trigger strip_fn strip_mac (classify (cmd_kind c)) (cmd_kind c) d c st)
+        as [st1|] eqn:E1; [|discriminate].
+      pose proof (ev_length _ _ _ (enter_command_ev _ _ _ _ _ _ _ _ _ H)) as Hlen.
+      rewrite enter_command_eq in H. fold (cmd_kind c) in H.
+      pose proof (enter_documented_k_def_stack _ _ _ _ _ _ E1) as Hds1.
+      apply enter_command_k_def_stack in H.
+      destruct (classify (cmd_kind c)) as [m| | | | |sec| |ctor| | | |]; try congruence.
+      + cbn [def_frame app] in H. exists (Some (length (documented st))). rewrite H, Hds1.
+        split; [reflexivity|]. right. split; [reflexivity|].
+        cbn [enter_documented_k handle] in E1. apply process_def_length in E1. lia.
+      + destruct H as [fr H]. exists fr. congruence.
+    - rewrite enter_command_eq in H. fold (cmd_kind c) in H.
+      pose proof (enter_command_k_def_stack _ _ _ _ _ H) as Hds.
+      destruct (classify (cmd_kind c)) as [m| | | | |sec| |ctor| | | |]; try exact Hds.
+      unfold def_frame in Hds. cbn [app] in Hds. cbn [enter_command_k] in H.
+      destruct (aw_pending (awaiting st)); [exists None; auto|].
+      destruct (flag_of fl (CkDef m)).
+      + eexists. split; [exact Hds|]. right. split; [reflexivity|].
+        apply process_def_length in H. lia.
+      + exists None. auto.
+    - injection H as <-. reflexivity.
+  Qed.
+
+  (* one element, function entries *)
+  Lemma agg_step_fn : forall st e st' j m n d p k,
+    step st e = Ok st' -> fn_at st j m n d p k ->
+    fn_at st' j m n d p (k || (frame_is j (def_stack st) && elem_is_cpa e)).
+  Proof.
+    intros st e st' j m n d p k H Hj. destruct e as [dd c|c|dd]; cbn [agg_step elem_is_cpa] in *.
+    - rewrite enter_documented_eq in H. fold (cmd_kind c) in H.
+      destruct (enter_documented_k trigger strip_fn strip_mac (classify (cmd_kind c)) (cmd_kind c) dd c st)
+        as [st1|] eqn:E1; [|discriminate].
+      rewrite enter_command_eq in H. fold (cmd_kind c) in H.
+      rewrite is_cpa_cmd_classify.
+      destruct (classify (cmd_kind c)) as [mm| | | | |sec| |ctor| | | |] eqn:Ek.
+      5: { cbn [enter_documented_k handle enter_command_k] in E1, H.
+           injection E1 as <-. injection H as <-.
+           apply process_cpa_fn in Hj. apply process_cpa_fn in Hj.
+           rewrite process_cpa_def_stack in Hj.
+           destruct k, (frame_is j (def_stack st)); exact Hj. }
+      all: rewrite andb_false_r, orb_false_r.
+      all: apply enter_documented_k_keeps in E1; [|discriminate].
+      all: apply enter_command_k_keeps in H; [|discriminate].
+      all: apply H, E1, Hj.
+    - rewrite enter_command_eq in H. fold (cmd_kind c) in H.
+      rewrite is_cpa_cmd_classify.
+      destruct (classify (cmd_kind c)) as [mm| | | | |sec| |ctor| | | |] eqn:Ek.
+      5: { cbn [enter_command_k] in H. injection H as <-.
+           apply process_cpa_fn in Hj. rewrite andb_true_r. exact Hj. }
+      all: rewrite andb_false_r, orb_false_r.
+      all: apply enter_command_k_keeps in H; [|discriminate].
+      all: apply H, Hj.
+    - injection H as <-. rewrite andb_false_r, orb_false_r. exact Hj.
+  Qed.
+
+  Lemma agg_step_length : forall st e st',
+    step st e = Ok st' -> length (documented st) <= length (documented st').
+  Proof.
+    intros st e st' H. apply agg_step_append_only in H.
+    destruct H as (o & nw & _ & _ & _ & L). lia.
+  Qed.
+
+  Lemma agg_run_app : forall a b st,
+    run st (a ++ b) = match run st a with Ok st1 => run st1 b | Crash => Crash end.
+  Proof.
+    intros a b. induction a as [|e r IH]; intro st; cbn [app agg_run]; [reflexivity|].
+    destruct (step st e); [apply IH|reflexivity].
+  Qed.
+End Steps.
+
+Lemma elem_kind_elem_of : forall doc c, elem_kind (elem_of doc c) = classify (cmd_kind c).
+Proof. intros [d|] c; reflexivity. Qed.
+
+Lemma elem_is_cpa_elem_of : forall doc c, elem_is_cpa (elem_of doc c) = is_cpa_cmd c.
+Proof. intros [d|] c; reflexivity. Qed.
+
+Lemma frame_is_avoid : forall j ds, frames_avoid j ds = true -> frame_is j ds = false.
+Proof.
+  intros j [|[i|] r] H; try reflexivity. cbn [frames_avoid forallb] in H. cbn [frame_is].
+  apply andb_true_iff in H. destruct H as [H _]. apply negb_true_iff in H. exact H.
+Qed.
+
+Lemma frames_below_avoid : forall j ds, frames_below j ds = true -> frames_avoid j ds = true.
+Proof.
+  intros j ds. induction ds as [|[i|] r IH]; cbn [frames_below frames_avoid forallb]; intro H;
+    try reflexivity.
+  - apply andb_true_iff in H. destruct H as [H1 H2]. fold (frames_below j r) in H2.
+    fold (frames_avoid j r). rewrite (IH H2), andb_true_r.
+    apply Nat.ltb_lt in H1. apply negb_true_iff, Nat.eqb_neq. lia.
+  - apply IH, H.
+Qed.
+
+Lemma frames_below_le : forall n n' ds, n <= n' -> frames_below n ds = true -> frames_below n' ds = true.
+Proof.
+  intros n n' ds Hn. induction ds as [|[i|] r IH]; cbn [frames_below forallb]; intro H;
+    try reflexivity.
+  - apply andb_true_iff in H. destruct H as [H1 H2]. fold (frames_below n r) in H2.
+    fold (frames_below n' r). rewrite (IH H2), andb_true_r.
+    apply Nat.ltb_lt in H1. apply Nat.ltb_lt. lia.
+  - apply IH, H.
+Qed.
+
+Section Defs.
+  Variable fl : flags.
+  Variable trigger : str.
+  Variables strip_fn strip_mac strip_mem : str -> str.
+
+  Notation step := (agg_step fl trigger strip_fn strip_mac strip_mem).
+  Notation run := (agg_run fl trigger strip_fn strip_mac strip_mem).
+
+  Lemma run_single : forall st e st', run st [e] = Ok st' -> step st e = Ok st'.
+  Proof.
+    intros st e st' H. cbn [agg_run] in H. destruct (step st e) as [st1|]; [|discriminate].
+    exact H.
+  Qed.
+
+  Lemma run_app_inv : forall a b st st',
+    run st (a ++ b) = Ok st' -> exists st1, run st a = Ok st1 /\ run st1 b = Ok st'.
+  Proof.
+    intros a b st st' H. rewrite agg_run_app in H.
+    destruct (run st a) as [st1|]; [|discriminate]. exists st1. auto.
+  Qed.
+
+  Lemma run_block : forall st e mid e2 st',
+    run st (e :: mid ++ [e2]) = Ok st' ->
+    exists st1 st2, step st e = Ok st1 /\ run st1 mid = Ok st2 /\ step st2 e2 = Ok st'.
+  Proof.
+    intros st e mid e2 st' H. cbn [agg_run] in H.
+    destruct (step st e) as [st1|] eqn:E1; [|discriminate].
+    apply run_app_inv in H. destruct H as (st2 & H2 & H3). apply run_single in H3.
+    exists st1, st2. auto.
+  Qed.
+
+  (* ---- D1 ---------------------------------------------------------------------------- *)
+
+  Lemma def_stack_restored_gen :
+    (forall n st st', wf_node n = true -> run st (flatten n) = Ok st' -> def_stack st' = def_stack st).
+  Proof.
+    apply (node_ind2
+      (fun n => forall st st', wf_node n = true -> run st (flatten n) = Ok st' ->
+                               def_stack st' = def_stack st)
+      (fun l => forall st st', wf_nodes l = true -> run st (flatten_all l) = Ok st' ->
+                               def_stack st' = def_stack st)).
+    - intros doc c st st' Hwf H. cbn [flatten] in H. apply run_single in H.
+      apply agg_step_def_stack in H. rewrite elem_kind_elem_of in H.
+      cbn [wf_node] in Hwf. rewrite is_def_cmd_classify, is_end_def_cmd_classify in Hwf.
+      destruct (classify (cmd_kind c)); try exact H; discriminate Hwf.
+    - intros d st st' _ H. cbn in H. injection H as <-. reflexivity.
+    - intros doc hdr body endc IH st st' Hwf H. rewrite flatten_def in H.
+      rewrite wf_node_def in Hwf. apply andb_true_iff in Hwf. destruct Hwf as [Hwf Hb].
+      apply andb_true_iff in Hwf. destruct Hwf as [Hh He].
+      apply run_block in H. destruct H as (st1 & st2 & H1 & H2 & H3).
+      apply agg_step_def_stack in H1. rewrite elem_kind_elem_of in H1.
+      apply agg_step_def_stack in H3. cbn [elem_kind] in H3.
+      rewrite is_def_cmd_classify in Hh. rewrite is_end_def_cmd_classify in He.
+      apply (IH _ _ Hb) in H2.
+      destruct (classify (cmd_kind hdr)); try discriminate Hh.
+      destruct (classify (cmd_kind endc)); try discriminate He.
+      destruct H1 as (fr & H1 & _). destruct H3 as (fr' & H3). congruence.
+    - intros doc hdr body endc IH st st' Hwf H. rewrite flatten_class in H.
+      rewrite wf_node_class in Hwf. apply andb_true_iff in Hwf. destruct Hwf as [Hwf Hb].
+      apply andb_true_iff in Hwf. destruct Hwf as [Hh He].
+      apply run_block in H. destruct H as (st1 & st2 & H1 & H2 & H3).
+      apply agg_step_def_stack in H1. rewrite elem_kind_elem_of in H1.
+      apply agg_step_def_stack in H3. cbn [elem_kind] in H3.
+      rewrite is_class_cmd_classify in Hh. rewrite is_end_class_cmd_classify in He.
+      apply (IH _ _ Hb) in H2.
+      destruct (classify (cmd_kind hdr)); try discriminate Hh.
+      destruct (classify (cmd_kind endc)); try discriminate He.
+      congruence.
+    - intros st st' _ H. cbn in H. injection H as <-. reflexivity.
+    - intros x r IHx IHr st st' Hwf H. cbn [wf_nodes forallb] in Hwf.
+      apply andb_true_iff in Hwf. destruct Hwf as [Hx Hr].
+      unfold flatten_all in H. cbn [flat_map] in H. apply run_app_inv in H.
+      destruct H as (st1 & H1 & H2). apply (IHx _ _ Hx) in H1. apply (IHr _ _ Hr) in H2. congruence.
+  Qed.
+
+  Theorem def_stack_restored : forall nodes st st',
+    wf_nodes nodes = true -> run st (flatten_all nodes) = Ok st' -> def_stack st' = def_stack st.
+  Proof.
+    intro nodes. induction nodes as [|x r IH]; intros st st' Hwf H.
+    - cbn in H. injection H as <-. reflexivity.
+    - cbn [wf_nodes forallb] in Hwf. apply andb_true_iff in Hwf. destruct Hwf as [Hx Hr].
+      unfold flatten_all in H. cbn [flat_map] in H. apply run_app_inv in H.
+      destruct H as (st1 & H1 & H2). apply (def_stack_restored_gen _ _ _ Hx) in H1.
+      apply (IH _ _ Hr) in H2. congruence.
+  Qed.
+
+  (* ---- D2 ---------------------------------------------------------------------------- *)
+
+  Theorem def_entry_created : forall doc hdr st st1,
+    is_def_cmd hdr = true ->
+    header_creates fl st doc hdr = true ->
+    step st (elem_of doc hdr) = Ok st1 ->
+    exists name ps,
+      singles hdr = name :: ps
+      /\ fn_at st1 (length (documented st)) (kind_is hdr (s"macro")) name (doc_of doc)
+               (map (if kind_is hdr (s"macro") then strip_mac else strip_fn) ps)
+               (contains trigger (doc_of doc))
+      /\ length (documented st1) = S (length (documented st))
+      /\ def_stack st1 = Some (length (documented st)) :: def_stack st.
+  Proof.
+    intros doc hdr st st1 Hd Hc H. rewrite is_def_cmd_classify in Hd.
+    destruct (classify (cmd_kind hdr)) as [m| | | | | | | | | | |] eqn:Ek; try discriminate Hd.
+    rewrite (kind_is_macro_classify _ _ Ek).
+    assert (Hpd : forall d docd st2,
+               process_def trigger strip_fn strip_mac m hdr d docd st = Ok st2 ->
+               exists name ps, singles hdr = name :: ps
+                 /\ fn_at st2 (length (documented st)) m name d
+                          (map (if m then strip_mac else strip_fn) ps) (contains trigger d)
+                 /\ length (documented st2) = S (length (documented st))
+                 /\ def_stack st2 = Some (length (documented st)) :: def_stack st
+                 /\ awaiting st2 = awaiting st).
+    { intros d docd st2 Hp. unfold process_def in Hp.
+      destruct (singles hdr) as [|name ps]; [discriminate|]. injection Hp as <-.
+      exists name, ps. split; [reflexivity|]. unfold fn_at.
+      cbn [with_def_stack append documented def_stack awaiting].
+      rewrite nth_error_app2, Nat.sub_diag by lia. rewrite app_length. cbn [length nth_error].
+      repeat split; try reflexivity. lia. }
+    destruct doc as [t|]; cbn [elem_of agg_step doc_of] in *.
+    - rewrite enter_documented_eq in H. fold (cmd_kind hdr) in H. rewrite Ek in H.
+      cbn [enter_documented_k handle] in H.
+      destruct (process_def trigger strip_fn strip_mac m hdr (clean_doc_text t) true st)
+        as [st2|] eqn:E2; [|discriminate].
+      rewrite enter_command_eq in H. fold (cmd_kind hdr) in H. rewrite Ek in H.
+      cbn [enter_command_k] in H.
+      destruct (Hpd _ _ _ E2) as (name & ps & Hs & Hf & Hl & Hds & Haw).
+      exists name, ps. split; [exact Hs|].
+      destruct (aw_pending (awaiting st2)).
+      + pose proof (claim_keeps strip_mem m true hdr st2) as Hk.
+        injection H as <-. split; [exact (Hk _ _ _ _ _ _ Hf)|]. unfold claim.
+        cbn [with_awaiting with_docs documented def_stack]. rewrite upd_awaiting_length. auto.
+      + injection H as <-. auto.
+    - rewrite enter_command_eq in H. fold (cmd_kind hdr) in H. rewrite Ek in H.
+      cbn [enter_command_k] in H. cbn [header_creates] in Hc.
+      rewrite (kind_is_macro_classify _ _ Ek) in Hc.
+      apply andb_true_iff in Hc. destruct Hc as [Hc1 Hc2]. apply negb_true_iff in Hc1.
+      rewrite Hc1 in H.
+      assert (Hfl : flag_of fl (CkDef m) = true) by (destruct m; exact Hc2).
+      rewrite Hfl in H. destruct (Hpd _ _ _ H) as (name & ps & Hs & Hf & Hl & Hds & _).
+      exists name, ps. auto.
+  Qed.
+
+  (* a header that does not create an entry leaves the documented list as long as it was *)
+  Lemma def_header_no_entry : forall hdr st st1,
+    is_def_cmd hdr = true ->
+    header_creates fl st None hdr = false ->
+    step st (ECmd hdr) = Ok st1 ->
+    length (documented st1) = length (documented st) /\ def_stack st1 = None :: def_stack st.
+  Proof.
+    intros hdr st st1 Hd Hc H. rewrite is_def_cmd_classify in Hd.
+    destruct (classify (cmd_kind hdr)) as [m| | | | | | | | | | |] eqn:Ek; try discriminate Hd.
+    cbn [agg_step] in H. rewrite enter_command_eq in H. fold (cmd_kind hdr) in H. rewrite Ek in H.
+    cbn [enter_command_k] in H. cbn [header_creates] in Hc.
+    rewrite (kind_is_macro_classify _ _ Ek) in Hc.
+    destruct (aw_pending (awaiting st)).
+    - injection H as <-. unfold claim. cbn [with_awaiting with_docs with_def_stack documented def_stack].
+      rewrite upd_awaiting_length. auto.
+    - cbn [negb andb] in Hc.
+      assert (Hfl : flag_of fl (CkDef m) = false) by (destruct m; exact Hc).
+      rewrite Hfl in H. injection H as <-. auto.
+  Qed.
+
+  (* ---- D3 ---------------------------------------------------------------------------- *)
+
+  (* running well-nested nodes marks entry j iff its frame is on top at the start and
+     cmake_parse_arguments occurs at depth 0 *)
+  Lemma run_nodes_fn_gen :
+    forall n st st' j m nm d p k,
+      wf_node n = true -> run st (flatten n) = Ok st' -> fn_at st j m nm d p k ->
+      fn_at st' j m nm d p (k || (frame_is j (def_stack st) && has_cpa0 n)).
+  Proof.
+    apply (node_ind2
+      (fun n => forall st st' j m nm d p k,
+         wf_node n = true -> run st (flatten n) = Ok st' -> fn_at st j m nm d p k ->
+         fn_at st' j m nm d p (k || (frame_is j (def_stack st) && has_cpa0 n)))
+      (fun l => forall st st' j m nm d p k,
+         wf_nodes l = true -> run st (flatten_all l) = Ok st' -> fn_at st j m nm d p k ->
+         fn_at st' j m nm d p (k || (frame_is j (def_stack st) && existsb has_cpa0 l)))).
+    - intros doc c st st' j m nm d p k _ H Hj. cbn [flatten] in H. apply run_single in H.
+      eapply agg_step_fn in H; [|exact Hj]. rewrite elem_is_cpa_elem_of in H. exact H.
+    - intros dd st st' j m nm d p k _ H Hj. cbn in H. injection H as <-.
+      cbn [has_cpa0]. rewrite andb_false_r, orb_false_r. exact Hj.
+    - intros doc hdr body endc IH st st' j m nm d p k Hwf H Hj. rewrite flatten_def in H.
+      rewrite wf_node_def in Hwf. apply andb_true_iff in Hwf. destruct Hwf as [Hwf Hb].
+      apply andb_true_iff in Hwf. destruct Hwf as [Hh He].
+      apply run_block in H. destruct H as (st1 & st2 & H1 & H2 & H3).
+      cbn [has_cpa0]. rewrite andb_false_r, orb_false_r.
+      pose proof (agg_step_def_stack _ _ _ _ _ _ _ _ H1) as Hds1. rewrite elem_kind_elem_of in Hds1.
+      rewrite is_def_cmd_classify in Hh.
+      destruct (classify (cmd_kind hdr)) eqn:Ekh; try discriminate Hh.
+      destruct Hds1 as (fr & Hds1 & Hfr).
+      eapply agg_step_fn in H1; [|exact Hj]. rewrite elem_is_cpa_elem_of, is_cpa_cmd_classify, Ekh in H1.
+      rewrite andb_false_r, orb_false_r in H1.
+      assert (Hnot : frame_is j (def_stack st1) = false).
+      { rewrite Hds1. destruct Hfr as [->|[-> _]]; [reflexivity|]. cbn [frame_is].
+        apply Nat.eqb_neq. unfold fn_at in Hj.
+        assert (j < length (documented st)) by (apply nth_error_Some; rewrite Hj; discriminate).
+        lia. }
+      eapply (IH _ _ _ _ _ _ _ _ Hb H2) in H1. rewrite Hnot in H1. cbn [andb] in H1.
+      rewrite orb_false_r in H1.
+      eapply agg_step_fn in H3; [|exact H1]. cbn [elem_is_cpa] in H3.
+      rewrite is_end_def_cmd_classify in He. rewrite is_cpa_cmd_classify in H3.
+      destruct (classify (cmd_kind endc)); try discriminate He.
+      rewrite andb_false_r, orb_false_r in H3. exact H3.
+    - intros doc hdr body endc IH st st' j m nm d p k Hwf H Hj. rewrite flatten_class in H.
+      rewrite wf_node_class in Hwf. apply andb_true_iff in Hwf. destruct Hwf as [Hwf Hb].
+      apply andb_true_iff in Hwf. destruct Hwf as [Hh He].
+      apply run_block in H. destruct H as (st1 & st2 & H1 & H2 & H3).
+      rewrite has_cpa0_class.
+      pose proof (agg_step_def_stack _ _ _ _ _ _ _ _ H1) as Hds1. rewrite elem_kind_elem_of in Hds1.
+      rewrite is_class_cmd_classify in Hh.
+      destruct (classify (cmd_kind hdr)) eqn:Ekh; try discriminate Hh.
+      eapply agg_step_fn in H1; [|exact Hj]. rewrite elem_is_cpa_elem_of, is_cpa_cmd_classify, Ekh in H1.
+      rewrite andb_false_r, orb_false_r in H1.
+      eapply (IH _ _ _ _ _ _ _ _ Hb H2) in H1. rewrite Hds1 in H1.
+      eapply agg_step_fn in H3; [|exact H1]. cbn [elem_is_cpa] in H3.
+      rewrite is_end_class_cmd_classify in He. rewrite is_cpa_cmd_classify in H3.
+      destruct (classify (cmd_kind endc)); try discriminate He.
+      rewrite andb_false_r, orb_false_r in H3. exact H3.
+    - intros st st' j m nm d p k _ H Hj. cbn in H. injection H as <-.
+      cbn [existsb]. rewrite andb_false_r, orb_false_r. exact Hj.
+    - intros x r IHx IHr st st' j m nm d p k Hwf H Hj. cbn [wf_nodes forallb] in Hwf.
+      apply andb_true_iff in Hwf. destruct Hwf as [Hx Hr].
+      unfold flatten_all in H. cbn [flat_map] in H. apply run_app_inv in H.
+      destruct H as (st1 & H1 & H2).
+      pose proof (def_stack_restored_gen _ _ _ Hx H1) as Hds.
+      eapply (IHx _ _ _ _ _ _ _ _ Hx H1) in Hj. eapply (IHr _ _ _ _ _ _ _ _ Hr H2) in Hj.
+      rewrite Hds in Hj. cbn [existsb].
+      destruct k, (frame_is j (def_stack st)), (has_cpa0 x), (existsb has_cpa0 r); exact Hj.
+  Qed.
+
+  Lemma run_nodes_fn : forall nodes st st' j m nm d p k,
+    wf_nodes nodes = true -> run st (flatten_all nodes) = Ok st' -> fn_at st j m nm d p k ->
+    fn_at st' j m nm d p (k || (frame_is j (def_stack st) && existsb has_cpa0 nodes)).
+  Proof.
+    intro nodes. induction nodes as [|x r IH]; intros st st' j m nm d p k Hwf H Hj.
+    - cbn in H. injection H as <-. cbn [existsb]. rewrite andb_false_r, orb_false_r. exact Hj.
+    - cbn [wf_nodes forallb] in Hwf. apply andb_true_iff in Hwf. destruct Hwf as [Hx Hr].
+      unfold flatten_all in H. cbn [flat_map] in H. apply run_app_inv in H.
+      destruct H as (st1 & H1 & H2).
+      pose proof (def_stack_restored_gen _ _ _ Hx H1) as Hds.
+      eapply (run_nodes_fn_gen _ _ _ _ _ _ _ _ _ Hx H1) in Hj.
+      eapply (IH _ _ _ _ _ _ _ _ Hr H2) in Hj.
+      rewrite Hds in Hj. cbn [existsb].
+      destruct k, (frame_is j (def_stack st)), (has_cpa0 x), (existsb has_cpa0 r); exact Hj.
+  Qed.
+
+  Theorem kwargs_iff : forall doc hdr body endc st st',
+    wf_node (NDef doc hdr body endc) = true ->
+    header_creates fl st doc hdr = true ->
+    run st (flatten (NDef doc hdr body endc)) = Ok st' ->
+    exists name ps,
+      singles hdr = name :: ps
+      /\ fn_at st' (length (documented st)) (kind_is hdr (s"macro")) name (doc_of doc)
+               (map (if kind_is hdr (s"macro") then strip_mac else strip_fn) ps)
+               (contains trigger (doc_of doc) || body_has_cpa0 body)
+      /\ def_stack st' = def_stack st.
+  Proof.
+    intros doc hdr body endc st st' Hwf Hc H.
+    pose proof (def_stack_restored_gen _ _ _ Hwf H) as Hds.
+    rewrite flatten_def in H.
+    rewrite wf_node_def in Hwf. apply andb_true_iff in Hwf. destruct Hwf as [Hwf Hb].
+    apply andb_true_iff in Hwf. destruct Hwf as [Hh He].
+    apply run_block in H. destruct H as (st1 & st2 & H1 & H2 & H3).
+    destruct (def_entry_created _ _ _ _ Hh Hc H1) as (name & ps & Hs & Hf & Hl & Hds1).
+    exists name, ps. split; [exact Hs|]. split; [|exact Hds].
+    eapply (run_nodes_fn _ _ _ _ _ _ _ _ _ Hb H2) in Hf.
+    rewrite Hds1 in Hf. cbn [frame_is] in Hf. rewrite Nat.eqb_refl in Hf. cbn [andb] in Hf.
+    eapply agg_step_fn in H3; [|exact Hf]. cbn [elem_is_cpa] in H3.
+    rewrite is_end_def_cmd_classify in He. rewrite is_cpa_cmd_classify in H3.
+    destruct (classify (cmd_kind endc)); try discriminate He.
+    rewrite andb_false_r, orb_false_r in H3. exact H3.
+  Qed.
+
+  (* ---- D4 ---------------------------------------------------------------------------- *)
+
+  Lemma agg_step_frames_avoid : forall st e st' j,
+    step st e = Ok st' -> j < length (documented st) ->
+    frames_avoid j (def_stack st) = true -> frames_avoid j (def_stack st') = true.
+  Proof.
+    intros st e st' j H Hj Hf. apply agg_step_def_stack in H.
+    destruct (elem_kind e); try (rewrite H; exact Hf).
+    - destruct H as (fr & H & Hfr). rewrite H. cbn [frames_avoid forallb].
+      fold (frames_avoid j (def_stack st)). rewrite Hf, andb_true_r.
+      destruct Hfr as [->|[-> _]]; [reflexivity|]. apply negb_true_iff, Nat.eqb_neq. lia.
+    - destruct H as (fr & H). rewrite H in Hf. cbn [frames_avoid forallb] in Hf.
+      apply andb_true_iff in Hf. destruct Hf as [_ Hf]. exact Hf.
+  Qed.
+
+  (* once no open definition refers to entry j, nothing ever marks it: any further elements
+     (well nested or not) leave the entry as it is *)
+  Theorem cpa_outside_never_marks : forall es st st' j m nm d p k,
+    frames_avoid j (def_stack st) = true ->
+    fn_at st j m nm d p k ->
+    run st es = Ok st' ->
+    fn_at st' j m nm d p k /\ frames_avoid j (def_stack st') = true.
+  Proof.
+    intro es. induction es as [|e r IH]; intros st st' j m nm d p k Hf Hj H; cbn [agg_run] in H.
+    - injection H as <-. auto.
+    - destruct (step st e) as [st1|] eqn:E1; [|discriminate].
+      assert (Hlt : j < length (documented st)).
+      { apply nth_error_Some. unfold fn_at in Hj. rewrite Hj. discriminate. }
+      pose proof (agg_step_frames_avoid _ _ _ _ E1 Hlt Hf) as Hf1.
+      eapply agg_step_fn in E1; [|exact Hj]. rewrite (frame_is_avoid _ _ Hf) in E1.
+      cbn [andb] in E1. rewrite orb_false_r in E1.
+      eapply IH; eassumption.
+  Qed.
+
+  (* the invariant that makes D4 applicable: open definitions refer to existing entries *)
+  Lemma agg_step_frames_below : forall st e st',
+    step st e = Ok st' ->
+    frames_below (length (documented st)) (def_stack st) = true ->
+    frames_below (length (documented st')) (def_stack st') = true.
+  Proof.
+    intros st e st' H Hf. pose proof (agg_step_length _ _ _ _ _ _ _ _ H) as Hl.
+    pose proof (agg_step_append_only _ _ _ _ _ _ _ _ H) as (o & nw & _ & _ & _ & Hlen).
+    apply agg_step_def_stack in H.
+    apply (frames_below_le _ _ _ Hl) in Hf.
+    destruct (elem_kind e); try (rewrite H; exact Hf).
+    - destruct H as (fr & H & Hfr). rewrite H. cbn [frames_below forallb].
+      fold (frames_below (length (documented st')) (def_stack st)). rewrite Hf, andb_true_r.
+      destruct Hfr as [->|[-> Hlt]]; [reflexivity|]. apply Nat.ltb_lt. exact Hlt.
+    - destruct H as (fr & H). rewrite H in Hf. cbn [frames_below forallb] in Hf.
+      apply andb_true_iff in Hf. destruct Hf as [_ Hf]. exact Hf.
+  Qed.
+
+  Lemma agg_run_frames_below : forall es st st',
+    run st es = Ok st' ->
+    frames_below (length (documented st)) (def_stack st) = true ->
+    frames_below (length (documented st')) (def_stack st') = true.
+  Proof.
+    intro es. induction es as [|e r IH]; intros st st' H Hf; cbn [agg_run] in H.
+    - injection H as <-. exact Hf.
+    - destruct (step st e) as [st1|] eqn:E1; [|discriminate].
+      eapply IH; [exact H|]. eapply agg_step_frames_below; eassumption.
+  Qed.
+
+  (* D3 + D4 for a definition anywhere in a file: whatever precedes it (pre) and whatever
+     follows it (post), its entry shows kwargs iff trigger or cmake_parse_arguments at depth 0 *)
+  Theorem kwargs_iff_in_file : forall f pre doc hdr body endc post st'',
+    f_elems f = pre ++ flatten (NDef doc hdr body endc) ++ post ->
+    wf_node (NDef doc hdr body endc) = true ->
+    aggregate fl trigger strip_fn strip_mac strip_mem f = Ok st'' ->
+    exists st,
+      run (match f_module f with
+           | Some t => append (module_entry t) true agg_init
+           | None => agg_init
+           end) pre = Ok st
+      /\ (header_creates fl st doc hdr = true ->
+          exists name ps,
+            singles hdr = name :: ps
+            /\ fn_at st'' (length (documented st)) (kind_is hdr (s"macro")) name (doc_of doc)
+                     (map (if kind_is hdr (s"macro") then strip_mac else strip_fn) ps)
+                     (contains trigger (doc_of doc) || body_has_cpa0 body)).
+  Proof.
+    intros f pre doc hdr body endc post st'' Hf Hwf H. unfold aggregate in H. rewrite Hf in H.
+    apply run_app_inv in H. destruct H as (st & Hpre & H).
+    apply run_app_inv in H. destruct H as (st' & Hdef & Hpost).
+    exists st. split; [exact Hpre|]. intro Hc.
+    destruct (kwargs_iff _ _ _ _ _ _ Hwf Hc Hdef) as (name & ps & Hs & Hfn & Hds).
+    exists name, ps. split; [exact Hs|].
+    assert (Hfb : frames_below (length (documented st)) (def_stack st) = true).
+    { eapply agg_run_frames_below; [exact Hpre|]. destruct (f_module f); reflexivity. }
+    apply frames_below_avoid in Hfb. rewrite <- Hds in Hfb.
+    destruct (cpa_outside_never_marks _ _ _ _ _ _ _ _ _ Hfb Hfn Hpost) as [Hfin _]. exact Hfin.
+  Qed.
+
+  (* the form with well-nested siblings: only the top frame matters *)
+  Corollary cpa_in_siblings_never_marks : forall more st st' j m nm d p k,
+    wf_nodes more = true ->
+    frame_is j (def_stack st) = false ->
+    fn_at st j m nm d p k ->
+    run st (flatten_all more) = Ok st' ->
+    fn_at st' j m nm d p k.
+  Proof.
+    intros more st st' j m nm d p k Hwf Hf Hj H.
+    eapply (run_nodes_fn _ _ _ _ _ _ _ _ _ Hwf H) in Hj. rewrite Hf in Hj.
+    cbn [andb] in Hj. rewrite orb_false_r in Hj. exact Hj.
+  Qed.
+End Defs.
+
+(* ---- D5: rendering ------------------------------------------------------------------- *)
+
+Theorem kwargs_once_last : forall m n d ps kw,
+  render_entry (EFunction m n d ps kw)
+  = Dir (s"function") [signature n (if kw then ps ++ [kwargs_lit] else ps)] []
+        ((if m then [Dir (s"note") [macro_note] [] []] else []) ++ [Para d]).
+Proof. reflexivity. Qed.
+
+(* against Spec.EntrySpec.def_signature: the directive argument of the rendered entry of a
+   definition is the signature of its single arguments, name unstripped *)
+Theorem def_signature_rendered : forall strip m name ps d kw,
+  exists opts body,
+    render_entry (EFunction m name d (map strip ps) kw) = Dir (s"function") opts [] body
+    /\ Some opts = option_map (fun x => [x]) (def_signature strip (name :: ps) kw).
+Proof.
+  intros strip m name ps d kw. eexists. eexists. split; [reflexivity|].
+  cbn [def_signature option_map]. destruct kw; [reflexivity|]. rewrite app_nil_r. reflexivity.
+Qed.
+
+(* ---- non-vacuity: concrete runs ------------------------------------------------------ *)
+
+Module Examples.
+  Open Scope string_scope.
+  Definition mk (n : string) (args : list string) : cmd :=
+    {| c_name := of_string n; c_args := map (fun a => ASingle TIdent (of_string a)) args |}.
+  Definition dc : option str := Some (s"#[[[ doc ]]").
+  Definition idf (x : str) : str := x.
+  Definition trig : str := s"**kwargs".
+  Definition cpa : node := NCmd None (mk "cmake_parse_arguments" ["x"]).
+  (* function(g) cmake_parse_arguments() endfunction() *)
+  Definition inner : node := NDef None (mk "function" ["g"]) [cpa] (mk "endfunction" []).
+  (* a documented function f(a b) whose body only contains the nested definition g *)
+  Definition outer : node := NDef dc (mk "FUNCTION" ["f"; "a"; "b"]) [inner] (mk "endfunction" []).
+  (* a documented macro with the call inside a class body: depth 0 of the macro *)
+  Definition outer2 : node :=
+    NDef dc (mk "macro" ["h"; "a"])
+         [inner; NClass None (mk "cpp_class" ["A"]) [cpa] (mk "cpp_end_class" [])] (mk "endmacro" []).
+  Definition kw_flags (st : result agg) : list (option (str * list str * bool)) :=
+    match st with
+    | Ok st => map (fun e => match e with EFunction _ n _ p k => Some (n, p, k) | _ => None end)
+                   (documented st)
+    | Crash => []
+    end.
+
+  Example defs_hyps_satisfiable :
+    wf_nodes [outer; cpa; outer2] = true
+    /\ header_creates default_flags agg_init dc (mk "FUNCTION" ["f"; "a"; "b"]) = true
+    /\ body_has_cpa0 [inner] = false
+    /\ body_has_cpa0 [inner; NClass None (mk "cpp_class" ["A"]) [cpa] (mk "cpp_end_class" [])] = true
+    /\ kw_flags (agg_run default_flags trig idf idf idf agg_init (flatten_all [outer; cpa; outer2]))
+       = [Some (s"f", [s"a"; s"b"], false); Some (s"g", [], true);
+          Some (s"h", [s"a"], true); Some (s"g", [], true); None].
+  Proof. vm_compute. repeat split. Qed.
+
+  (* the main theorem applied to the concrete definition: f has no kwargs although a nested
+     definition and a later file-level command call cmake_parse_arguments *)
+  Definition file1 : cfile :=
+    {| f_module := None; f_elems := flatten outer ++ flatten_all [cpa; outer2] |}.
+
+  Example kwargs_iff_applied : forall st'',
+    aggregate default_flags trig idf idf idf file1 = Ok st'' ->
+    fn_at st'' 0 false (s"f") (s"doc ") [s"a"; s"b"] false.
+  Proof.
+    intros st'' H.
+    destruct (kwargs_iff_in_file default_flags trig idf idf idf file1 [] dc
+                (mk "FUNCTION" ["f"; "a"; "b"]) [inner] (mk "endfunction" [])
+                (flatten_all [cpa; outer2]) st'' eq_refl eq_refl H) as (st & Hst & Hk).
+    cbn [agg_run f_module] in Hst. injection Hst as <-.
+    destruct (Hk eq_refl) as (name & ps & Hs & Hf). vm_compute in Hs. injection Hs as <- <-.
+    exact Hf.
+  Qed.
+End Examples.
+
+(* ==== MAIN THEOREMS ====
+   def_stack_restored        (D1) well-nested nodes leave the definition stack as it was
+   def_entry_created         (D2) the header of a definition creates the entry: name unstripped,
+                                  parameters stripped in order, kwargs = trigger in doccomment
+   def_header_no_entry            otherwise no entry and an anonymous frame
+   kwargs_iff                (D3) after the whole definition: kwargs iff trigger or
+                                  cmake_parse_arguments at depth 0 of its own body
+   cpa_outside_never_marks   (D4) afterwards nothing changes the entry (any elements at all)
+   cpa_in_siblings_never_marks    the well-nested form: only the top frame matters
+   kwargs_iff_in_file        D3 + D4 for a definition anywhere in a file
+   kwargs_once_last, def_signature_rendered (D5) rendering of the signature *)
+Print Assumptions def_stack_restored.
+Print Assumptions def_entry_created.
+Print Assumptions def_header_no_entry.
+Print Assumptions kwargs_iff.
+Print Assumptions cpa_outside_never_marks.
+Print Assumptions cpa_in_siblings_never_marks.
+Print Assumptions kwargs_iff_in_file.
+Print Assumptions kwargs_once_last.
+Print Assumptions def_signature_rendered.
+Print Assumptions Examples.kwargs_iff_applied.
